@@ -275,6 +275,13 @@ pub fn fit_and_judge(x: &Mat, y_in: &[f64], cfg: &Cfg, watchdog_ms: Option<u64>)
         mc::violation("oracle.exact-min:beaten", format!("{}: the library's objective {} is BELOW the reference minimum {} — the reference is wrong", label(), f, opt.f));
     }
     let healthy_class = !(est == "elasticnet" && mean_nonzero);
+    mc::count(match (est, mean_nonzero, cfg.normalize) {
+        ("lasso", _, true) => "judged_lasso_normalized",
+        ("lasso", _, false) => "judged_lasso_raw",
+        (_, false, true) => "judged_enet_mean_zero_normalized",
+        (_, false, false) => "judged_enet_mean_zero_raw",
+        (_, true, _) => "judged_enet_mean_nonzero",
+    });
     if opt.f > 0.0 && healthy_class {
         bucket((f - opt.f) / (cfg.tol * opt.f));
     }
@@ -314,6 +321,11 @@ pub fn case(x: &Mat, y_base: &[f64], cfg: &Cfg, watchdog_ms: Option<u64>, ctarge
         return;
     }
     let shifted = fit_and_judge(x, &y_in, cfg, watchdog_ms);
+    if let (Some(js), false) = (&shifted, ctarget_job) {
+        if cfg.l1_ratio == Some(1.0) && y_in.iter().sum::<f64>() == 0.0 {
+            reproduces_lasso(x, &y_in, cfg, js, watchdog_ms);
+        }
+    }
     if cfg.shift == 0.0 {
         return;
     }
@@ -345,7 +357,7 @@ pub fn case(x: &Mat, y_base: &[f64], cfg: &Cfg, watchdog_ms: Option<u64>, ctarge
     // strong convexity: ||Z d||^2 + l2 ||d||^2 <= F(v) - Fmin for d = v - argmin. Both fits are allowed
     // the slack of the near-optimality clause (the base fit is allowed what it actually used, if more).
     let slack_b = (K_TOL * cfg.tol * opt.f + pr.abs_slack).max(fbv - opt.f);
-    let slack_s = K_TOL * cfg.tol * opt.f + pr.abs_slack + js.slack;
+    let slack_s = js.slack.max(K_TOL * cfg.tol * opt.f + pr.abs_slack);
     let bound = slack_b.sqrt() + slack_s.sqrt();
     let d: Vec<f64> = (0..p).map(|j| js.v[j] - vb[j]).collect();
     let zd: f64 = pr.des.z.iter().map(|r| oracle::dot(r, &d).powi(2)).sum::<f64>() + pr.l2 * refs::sq_norm(&d);
@@ -369,14 +381,55 @@ pub fn case(x: &Mat, y_base: &[f64], cfg: &Cfg, watchdog_ms: Option<u64>, ctarge
         );
     }
     // intercept moves by exactly the shift, up to what the permitted coefficient difference explains
-    let smin = oracle::singular_values(&pr.des.z).last().copied().unwrap_or(0.0);
-    let ms: f64 = (0..p).map(|j| (pr.des.mean[j] / pr.des.std[j]).powi(2)).sum::<f64>().sqrt();
-    let allow = bound / smin * ms + 256.0 * f64::EPSILON * (cfg.shift.abs() + js.b.abs() + fb.b.abs());
+    let allow = bound * bound_to_intercept(&pr) + 256.0 * f64::EPSILON * (cfg.shift.abs() + js.b.abs() + fb.b.abs());
     if !((js.b - fb.b - cfg.shift).abs() <= allow) {
         mc::violation(
             "elasticnet.shift:intercept",
             format!("X={:?} y={:?} alpha={} l1_ratio={:?} normalize={} tol={}: intercept {} for y, {} for y+{} (difference {} instead of {}, allowed deviation {:.3e})", x, y_base, cfg.alpha, cfg.l1_ratio, cfg.normalize, cfg.tol, fb.b, js.b, cfg.shift, js.b - fb.b, cfg.shift, allow),
         );
     }
-    let _ = (js.f, js.fmin);
+}
+
+/// "l1_ratio = 1 reproduces Lasso": the elastic-net fit `js` (l1_ratio = 1, target mean exactly 0) is
+/// compared with the real Lasso fit of the same input. Both are within the slack of the
+/// near-optimality clause of the same strongly convex objective, hence close to each other:
+/// ||Z (v_en - v_lasso)|| <= sqrt(excess_en) + sqrt(excess_lasso).
+fn reproduces_lasso(x: &Mat, y_in: &[f64], cfg: &Cfg, js: &Judged, watchdog_ms: Option<u64>) {
+    let lcfg = Cfg { l1_ratio: None, ..cfg.clone() };
+    let pr = problem(x, y_in, &lcfg);
+    if pr.cond > COND_MAX {
+        return;
+    }
+    let xp = predict_rows(x);
+    let out = match watchdog_ms {
+        None => fit_raw(x, y_in, &lcfg, MAX_ITER, &xp),
+        Some(ms) => fit_watched(x, y_in, &lcfg, MAX_ITER, &xp, ms),
+    };
+    // (a failing Lasso fit is reported by the Lasso executions of the same input)
+    let FitOut::Ok(fl) = out else { return };
+    if fl.w.iter().any(|t| !t.is_finite()) {
+        return;
+    }
+    mc::count("enet_l1ratio1_compared_with_lasso");
+    let p = x[0].len();
+    let vl: Vec<f64> = (0..p).map(|j| fl.w[j] * pr.des.std[j]).collect();
+    let fl_obj = refs::objective(&pr.des.z, &pr.yc, &vl, pr.l1, 0.0);
+    let allowed = K_TOL * cfg.tol * js.fmin + pr.abs_slack;
+    let bound = allowed.max(fl_obj - js.fmin).sqrt() + allowed.max(js.f - js.fmin).sqrt();
+    let d: Vec<f64> = (0..p).map(|j| js.v[j] - vl[j]).collect();
+    let zd = pr.des.z.iter().map(|r| oracle::dot(r, &d).powi(2)).sum::<f64>().sqrt();
+    if !(zd <= bound) || !((js.b - fl.b).abs() <= 256.0 * f64::EPSILON * (js.b.abs() + fl.b.abs()) + bound * bound_to_intercept(&pr)) {
+        mc::violation(
+            "elasticnet.l1ratio1:differs-from-lasso",
+            format!("X={:?} y={:?} alpha={} normalize={} tol={}: ElasticNet(l1_ratio=1) gives w*std={:?} b={}, Lasso gives w*std={:?} b={} (||Z d|| = {:.3e}, allowed {:.3e})", x, y_in, cfg.alpha, cfg.normalize, cfg.tol, js.v, js.b, vl, fl.b, zd, bound),
+        );
+    }
+}
+
+/// Factor turning a bound on ||Z d|| into a bound on the induced intercept difference |sum_j d_j mean_j / std_j|.
+fn bound_to_intercept(pr: &Problem) -> f64 {
+    let p = pr.des.mean.len();
+    let smin = oracle::singular_values(&pr.des.z).last().copied().unwrap_or(0.0);
+    let ms: f64 = (0..p).map(|j| (pr.des.mean[j] / pr.des.std[j]).powi(2)).sum::<f64>().sqrt();
+    ms / smin
 }
